@@ -439,6 +439,60 @@ def flatten(ll):
     return [x for l in ll for x in l]
 
 
+ATTR_KEYS = ('real', 'imag', 'den', 'nope')
+
+
+def key_kind(case, fn):
+    """round 3b: the KIND of the Python object the harness passes as `key` to `fn` (unique / redundant / bucketize;
+    partition hands its key to bucketize) - the model computes the branch of fn's key dispatch from it"""
+    name = case['key']
+    if name in ATTR_KEYS:
+        return 'str'
+    if fn == 'bucketize':
+        if case.get('dflt') and name == 'bool':
+            return 'class'                       # the default: the class `bool`
+        return case.get('kc') or 'lambda'        # the identity key is passed as a callable too
+    if name == 'id':
+        return 'none'
+    return case.get('kc') or 'lambda'
+
+
+def key_probe_objects():
+    """one object of every kind a caller may pass as `key` (for the generated key-dispatch table); the callables
+    compute x % 2, the attribute is `denominator` (1 for every int), the list holds per-item keys"""
+    def f(x):
+        return x % 2
+    return [('none', None), ('lambda', f), ('partial', as_callable_kind(f, 'partial')),
+            ('object', as_callable_kind(f, 'object')), ('method', as_callable_kind(f, 'method')),
+            ('class', as_callable_kind(f, 'class', True)), ('falsy', as_callable_kind(f, 'falsy')),
+            ('str', 'denominator'), ('list', [7, 7, 8]), ('int', 3)]
+
+
+def probe_key_branch(iu, fn, obj):
+    """which branch of fn's key dispatch the live function takes for this key object, observed on the items
+    1, 2, 3 (identity: three keys; call: keys 1, 0, 1; attr: one key; perItem: keys 7, 7, 8)"""
+    src = [1, 2, 3]
+    try:
+        with time_limit(10):
+            if fn == 'unique':
+                r = list(iu.unique_iter(src, obj))
+                table = {(1, 2, 3): 'identity', (1, 2): 'call', (1,): 'attr'}
+                return table.get(tuple(r), 'other')
+            if fn == 'redundant':
+                r = iu.redundant(src, obj)
+                table = {(): 'identity', (3,): 'call', (2,): 'attr'}
+                return table.get(tuple(r), 'other')
+            r = iu.bucketize(src, obj)
+            shape = sorted((int(k), tuple(v)) for k, v in r.items())
+            table = {((1, (1,)), (2, (2,)), (3, (3,))): 'identity', ((0, (2,)), (1, (1, 3))): 'call',
+                     ((1, (1, 2, 3)),): 'attr', ((7, (1, 2)), (8, (3,))): 'perItem'}
+            return table.get(tuple(shape), 'other')
+    except TypeError:
+        return 'typeError'
+    except Exception as e:
+        return 'raises' + exc_name(e)
+
+
 def is_subsequence(small, big):
     it = iter(big)
     return all(any(x == y for y in it) for x in small)
@@ -529,6 +583,12 @@ class C09(Property):
             except Exception as e:      # the table then disagrees with the model and the theorem names it
                 tname = 'raises'
             chunk_rows.append('  ("%s", "%s")' % (kind, tname))
+        key_rows = []
+        for fn in ('unique', 'redundant', 'bucketize'):
+            for kname, obj in key_probe_objects():
+                if fn == 'redundant' and kname == 'falsy' and self.falsy_key_defect_known():
+                    continue      # the region of the known finding C09-redundant-falsy-key (row back once fixed)
+                key_rows.append('  ("%s", "%s", "%s")' % (fn, kname, probe_key_branch(iu, fn, obj)))
         text = ('/- GENERATED by harness/bv/props/c09.py (regen) from the live boltons.iterutils - do not edit.\n'
                 '   One row per kind of object: (kind, callable(obj), is_iterable(obj), is_scalar(obj),\n'
                 '   is_collection(obj)) as answered by the current source for a sample object of that kind. -/\n'
@@ -541,8 +601,12 @@ class C09(Property):
                 'def defaultsTable : List (String × String × String) := [\n%s]\n\n'
                 '/-- (input kind, type of the chunks `chunked_iter` yields for an input of that kind) -/\n'
                 'def chunkTypeTable : List (String × String) := [\n%s]\n\n'
+                '/-- (function, kind of the object passed as `key`, branch of the key dispatch the live function takes:\n'
+                '    observed on the items 1, 2, 3 with callables computing x %% 2, the attribute `denominator` and the\n'
+                '    key list [7, 7, 8]) -/\n'
+                'def keyKindTable : List (String × String × String) := [\n%s]\n\n'
                 'end C09.Generated\n') % (',\n'.join(rows), ',\n'.join(plain), ',\n'.join(default_rows),
-                                          ',\n'.join(chunk_rows))
+                                          ',\n'.join(chunk_rows), ',\n'.join(key_rows))
         return {'C09_SepKinds.lean': text}
 
     # ------------------------------------------------------------------ generation
@@ -1166,12 +1230,14 @@ class C09(Property):
         if op == 'pystrip':
             return 'pystrip %s %d %s' % (case['side'], case['v'], nats(case['xs']))
         if op in ('unique', 'partition'):
-            return '%s %s %s' % (op, case['key'], nats(case['xs']))
+            return '%s %s@%s %s' % (op, case['key'], key_kind(case, 'unique' if op == 'unique' else 'bucketize'),
+                                    nats(case['xs']))
         if op == 'redundant':
-            return 'redundant %s %d %s' % (case['key'], 1 if case['groups'] else 0, nats(case['xs']))
+            return 'redundant %s@%s %d %s' % (case['key'], key_kind(case, 'redundant'), 1 if case['groups'] else 0,
+                                              nats(case['xs']))
         if op == 'bucketize':
             k = case['key']
-            ktok = k if isinstance(k, str) else 'L' + nats(k[1])
+            ktok = '%s@%s' % (k, key_kind(case, 'bucketize')) if isinstance(k, str) else 'L' + nats(k[1])
             return 'bucketize %s %s %s %s' % (ktok, case['vt'], '-' if case['kf'] is None else 'ne%d' % case['kf'],
                                               nats(case['xs']))
         if op == 'chunk_ranges':
